@@ -112,8 +112,8 @@ func observeDraw(n uint32, words []uint32) drawObs {
 func init() {
 	register(&CheckDef{
 		ID: "C01", Level: "exploration",
-		Technique: "deterministic simulation on a scripted random tape: seeded search over bounds x boundary tapes (range, consumption, memorylessness after rejection), with exact counting over all 2^32 raw words for seed-chosen and escalated bounds as adjudicator",
-		Rule:      "case = one bounded draw (bound n, tape of raw 32-bit words); distinct by hash of (n, tape); non-trivial = n >= 2. Exact counts: one case per (bound, 2^32 words), reported under exact_counts",
+		Technique:   "deterministic simulation on a scripted random tape: seeded search over bounds x boundary tapes (range, consumption, memorylessness after rejection), with exact counting over all 2^32 raw words for seed-chosen and escalated bounds as adjudicator",
+		Rule:        "case = one bounded draw (bound n, tape of raw 32-bit words); distinct by hash of (n, tape); non-trivial = n >= 2. Exact counts: one case per (bound, 2^32 words), reported under exact_counts",
 		Assumptions: []string{"the raw word is the 4 bytes read from crypto/rand.Reader (go1.23.5: rand.Read = io.ReadFull(Reader, b))", "exact counts are exhaustive over the raw word only for the bounds listed in exact_counts; all other bounds rest on the seeded boundary search"},
 		Episodes:    map[string]int{"quick": 4000, "thorough": 800000},
 		TwiceEvery:  11,
@@ -411,13 +411,13 @@ func countChildMain(args []string) int {
 }
 
 type exactSummary struct {
-	N         uint32 `json:"n"`
-	Accepted  uint64 `json:"accepted_words"`
-	Rejected  uint64 `json:"rejected_words"`
-	PerAlt    uint64 `json:"words_per_alternative"`
-	Uniform   bool   `json:"uniform"`
-	Reason    string `json:"why_chosen"`
-	WallS     float64 `json:"wall_s"`
+	N        uint32  `json:"n"`
+	Accepted uint64  `json:"accepted_words"`
+	Rejected uint64  `json:"rejected_words"`
+	PerAlt   uint64  `json:"words_per_alternative"`
+	Uniform  bool    `json:"uniform"`
+	Reason   string  `json:"why_chosen"`
+	WallS    float64 `json:"wall_s"`
 }
 
 func exactCount(c *Ctx, n uint32, why string) (sum exactSummary, trouble string) {
